@@ -67,6 +67,9 @@ type HostSpec struct {
 	Funcs []FuncSpec
 	Cmds  []CmdSpec
 	Vars  map[string]Value
+	// ModelFuncs are further model functions (with access to the machine: handlers that write variables); their real
+	// counterparts are registered by the check (WalkOpts.Setup).
+	ModelFuncs map[string]ModelFunc
 }
 
 // Model builds the model host.
@@ -95,6 +98,9 @@ func (hs *HostSpec) Model() *Host {
 			}
 			return FuncResult{}
 		}
+	}
+	for name, f := range hs.ModelFuncs {
+		h.Funcs[name] = f
 	}
 	for _, c := range hs.Cmds {
 		c := c
